@@ -776,6 +776,69 @@ class Impl:
             return "node-lost"
         return "ok" if H._node[back[0]] == G2._node[n0] else "attribute-lost"
 
+    # attribute names of the record-level node-link ops (token = position)
+    _REC_NAMES = ["id", "name", "key", "a", "weight ", "", "\u00e9t\u00e9", "source", "time", "target", "label", "ID"]
+
+    def _rec_at(self, id_key):
+        nm = self._REC_NAMES[int(id_key)]
+        return dict(id=nm, source="source", target="target")
+
+    def _rec_val(self, v):
+        # attribute values are strings "v<k>", node ids are integers
+        if isinstance(v, bool) or not isinstance(v, (int, str)):
+            return [9, repr(v)[:40]]
+        return [1, v] if isinstance(v, int) else [0, int(v[1:])] if v[:1] == "v" and v[1:].isdigit() else [9, v[:40]]
+
+    def _rec_items(self, d):
+        tok = {n: i for i, n in enumerate(self._REC_NAMES)}
+        return [[tok.get(k, repr(k)[:40])] + self._rec_val(v) for k, v in d.items()]
+
+    def _rec_table(self, H):
+        return [self._rec_val(n) + [self._rec_items(a)] for n, a in H._node.items()]
+
+    def op_nlrecs(self, id_key, m, *rest):
+        """node records written by node_link_data for nodes with NAMED attributes, and the node table node_link_graph
+        rebuilds from them (through a real JSON encoder)"""
+        at = self._rec_at(id_key)
+        rest = [int(x) for x in rest]
+        nodes, i = [], 0
+        for _ in range(int(m)):
+            n, k = rest[i], rest[i + 1]
+            body = rest[i + 2:i + 2 + 2 * k]
+            nodes.append((n, {self._REC_NAMES[body[2 * j]]: "v%d" % body[2 * j + 1] for j in range(k)}))
+            i += 2 + 2 * k
+        G = (dn.DynDiGraph if (len(rest) + int(id_key)) % 2 else dn.DynGraph)()
+        for j, (n, a) in enumerate(nodes):
+            if j % 2:
+                G.add_node(n, **a)
+            else:
+                G.add_node(n)
+                for k, v in a.items():
+                    G._node[n][k] = v
+        d = node_link_data(G, attrs=at)
+        recs = [self._rec_items(r) for r in d["nodes"]]
+        d2 = json.loads(json.dumps(d))
+        if [self._rec_items(r) for r in d2["nodes"]] != recs:
+            return "json-changes-records"
+        H = node_link_graph(d2, attrs=at)
+        if H.is_directed() != G.is_directed():
+            return "class-changed"
+        return {"recs": recs, "back": self._rec_table(H)}
+
+    def op_nlimp(self, id_key, m, *rest):
+        """node_link_graph on hand-written records: missing ids, repeated ids"""
+        at = self._rec_at(id_key)
+        rest = [int(x) for x in rest]
+        recs, i = [], 0
+        for _ in range(int(m)):
+            k = rest[i]
+            body = rest[i + 1:i + 1 + 3 * k]
+            recs.append({self._REC_NAMES[body[3 * j]]: (body[3 * j + 2] if body[3 * j + 1] else "v%d" % body[3 * j + 2]) for j in range(k)})
+            i += 1 + 3 * k
+        data = {"directed": bool((len(rest) + int(id_key)) % 2), "graph": {}, "nodes": recs, "links": []}
+        H = node_link_graph(json.loads(json.dumps(data)), attrs=at)
+        return self._rec_table(H)
+
     def op_nld(self, s):
         G = self.G(s)
         d = node_link_data(G)
